@@ -20,6 +20,9 @@ var (
 	todoCmdConfig RootCmdConfig
 )
 
+// messageWidth: messages are wrapped to the column width of the tables (cmd_util.NewOutput)
+const messageWidth = 80
+
 var todoCmd = &cobra.Command{
 	Use:   "todo",
 	Short: "scan all todo, and list with time",
@@ -43,17 +46,19 @@ var todoCmd = &cobra.Command{
 			cmd_util.WriteToCocaFile("todos.json", string(cModel))
 
 			table := cmd_util.NewOutput(output)
+			table.SetAutoWrapText(false)
 			table.SetHeader([]string{"Date", "Author", "Messages", "FileName", "Line"})
 			for _, todo := range gitTodos {
-				table.Append([]string{todo.Date, todo.Author, todo.Message, todo.FileName, todo.Line})
+				table.Append([]string{todo.Date, todo.Author, cmd_util.WrapText(todo.Message, messageWidth), todo.FileName, todo.Line})
 			}
 
 			table.Render()
 		} else {
 			table := cmd_util.NewOutput(output)
+			table.SetAutoWrapText(false)
 			table.SetHeader([]string{"Filename", "Messages", "Assignee", "Line"})
 			for _, todo := range todos {
-				table.Append([]string{todo.Filename, todo.Message, todo.Assignee, strconv.Itoa(todo.Line)})
+				table.Append([]string{todo.Filename, cmd_util.WrapText(todo.Message, messageWidth), todo.Assignee, strconv.Itoa(todo.Line)})
 			}
 
 			table.Render()
